@@ -6,6 +6,8 @@ TP = "traces_parser.py"
 PF = "trace_handlers/perf.py"
 TR = "trace_handlers/trace.py"
 MUTANTS = [
+    N("C14", "private helper _format_kevent renamed", "pykdebugparser.py", "_format_kevent", "_render_kevent", all_occurrences=True),
+    N("C14", "private helper _format_process renamed", "pykdebugparser.py", "_format_process", "_render_process", all_occurrences=True),
     F("C14", "a piece testing two switches", P,
       "        formatted_data += f'{tid:>11} ' if self.show_tid else ''\n        if self.show_process:\n            formatted_data += f'{self._format_process(tid):<34}'\n        event_rep = str(trace)",
       "        formatted_data += f'{tid:>11} ' if self.show_tid and self.show_timestamp else ''\n        if self.show_process:\n            formatted_data += f'{self._format_process(tid):<34}'\n        event_rep = str(trace)", "R1"),
